@@ -3,7 +3,7 @@
   specification's bookkeeping) kept by every operation, the enabled clauses for one step, and the
   induction over the operation list.
 -/
-import IcingaProofs.C05.Started
+import IcingaProofs.C05.StartEffect
 
 namespace Icinga.C05
 
@@ -69,7 +69,7 @@ theorem specStep_core {T : Int} {sp : SpecSt} {st : St} (h : TInv T sp st) (op :
     chkDepth_model sp st op hrel hnd, chkWriteOnce_model sp st op hrel hnd, chkWindow_model sp st op hrel hnd,
     chkWindowGone_model sp st op hrel hnd, chkStartOnce_model sp st op hrel hnd op.now hs',
     chkStarted_model sp st op hrel hnd h.qinv h.xinv, chkEndHasStart_model sp st op hrel hnd h.qinv h.xinv,
-    chkTrigStart_model sp st op hrel hnd]
+    chkTrigStart_model sp st op hrel hnd, chkStartEffect_model sp st op hrel hnd h.ainv hnow hop]
   simp
 
 theorem trace_core (ops : List Op) : ∀ (sp : SpecSt) (st : St) (T : Int), TInv T sp st → WF T ops →
